@@ -164,6 +164,8 @@ class HistSim(Sim):
         ev = {"k": "op", "op": name, "in": ins, "args": args, "out": outs, "actor": rng.randrange(st.knobs["actors"])}
         if st.knobs["faulty"] and rng.random() < 0.06:
             ev["fault"] = {"kind": rng.choice(["alloc", "interrupt", "exit"]), "at": rng.randint(1, 2)}
+            if rng.random() < 0.5:
+                ev["fault"].update(seam="line", at=rng.randint(1, 70))
         return ev
 
     def _gen_backward(self, rng, st, rg_all):
@@ -194,7 +196,11 @@ class HistSim(Sim):
         ev = {"k": "backward", "root": root, "g": g}
         if st.knobs["faulty"] and rng.random() < 0.3:
             n = max(1, len(self._reach(st, root)))
-            if rng.random() < 0.5:
+            u = rng.random()
+            if u < 0.4:
+                # a crash point at an arbitrary executed line of the sweep (inside a closure, between two accumulations, in the traversal)
+                ev["fault"] = {"kind": rng.choice(["alloc", "interrupt", "exit"]), "seam": "line", "at": rng.randint(1, 60 + 110 * n)}
+            elif u < 0.7:
                 ev["fault"] = {"kind": rng.choice(["alloc", "interrupt", "exit"]), "seam": "kernel", "at": rng.randint(1, 2 * n)}
             else:
                 ev["fault"] = {"kind": rng.choice(["alloc", "interrupt", "exit"]), "seam": "bw", "at": rng.randint(1, n)}
@@ -242,8 +248,12 @@ class HistSim(Sim):
         return seen
 
     def _grad_bytes(self, t):
-        with quiet():
-            g = t.grad
+        try:
+            with quiet():
+                g = t.grad
+        except Exception as e:
+            # reading .grad is the property's observation point: it cannot fail, whatever the history (e.g. after an interrupted sweep)
+            self._cur.fail("C04.grad_unreadable", f"reading .grad of a tensor raised {type(e).__name__}: {e}")
         return None if g is None else (g.data.shape, str(g.data.dtype), g.data.tobytes())
 
     def _snapshot(self, st, ids):
@@ -269,8 +279,11 @@ class HistSim(Sim):
             if m["kind"] != "leaf" or not m["rg"] or i in st.unknown:
                 continue
             t = st.T[i]
-            with quiet():
-                g = t.grad
+            try:
+                with quiet():
+                    g = t.grad
+            except Exception as e:
+                st.fail("C04.grad_unreadable", f"{where}: reading .grad of leaf {i} raised {type(e).__name__}: {e}", leaf=i)
             exp = st.ledger.get(i)
             if g is None:
                 obs = np.zeros(t.data.shape)
@@ -353,6 +366,7 @@ class HistSim(Sim):
     # ------------------------------------------------------------------ application
     def apply(self, st, ev):
         k = ev["k"]
+        self._cur = st
         st.cur_sig = k
         getattr(self, "_ev_" + k)(st, ev)
         st.sig.append(st.cur_sig)
@@ -408,10 +422,11 @@ class HistSim(Sim):
         fault = ev.get("fault")
         snap = self._snapshot(st, list(st.T)) if fault else None
         if fault:
-            SEAM.arm(fault["kind"], fault["at"])
+            SEAM.arm_spec(fault)
         try:
             with quiet():
                 res = ops.as_list(ops.apply_op(SG, ev["op"], xs, ev["args"]))
+            SEAM.disarm()
         except SimFault as e:
             st.faults["forward_" + fault["kind"]] += 1
             st.probes["forward_fault"] += 1
@@ -585,12 +600,9 @@ class HistSim(Sim):
         st.probes["no_reset_between_calls" if st.since_reset_calls else "reset_between_calls"] += 1
         retry = st.last_fault_root is not None and st.last_fault_root[0] == root
         fault = ev.get("fault")
-        if fault:
-            if fault["seam"] == "kernel":
-                SEAM.arm(fault["kind"], fault["at"])
-            else:
-                SEAM.arm_bw(fault["kind"], fault["at"])
         gt = None if g is None else SG.Tensor(g.copy())
+        if fault:
+            SEAM.arm_spec(fault)
         raised = None
         try:
             with quiet():
